@@ -508,14 +508,11 @@ pub fn replay_main(path: &str) -> i32 {
             let other = if b == "userlike" { std::env::var("LRUSIM_ALT_BIN").ok() } else { std::env::var("LRUSIM_MAIN_BIN").ok() };
             match other.filter(|p| Path::new(p).exists()) {
                 Some(bin) => {
-                    let st = std::process::Command::new(bin).args(["replay", path]).status();
-                    return match st {
-                        Ok(s) => s.code().unwrap_or(139),
-                        Err(e) => {
-                            eprintln!("harness error: cannot run the {} build: {}", b, e);
-                            2
-                        }
-                    };
+                    // replace this process (no grandchild that would survive a supervisor's kill)
+                    use std::os::unix::process::CommandExt;
+                    let e = std::process::Command::new(bin).args(["replay", path]).exec();
+                    eprintln!("harness error: cannot run the {} build: {}", b, e);
+                    return 2;
                 }
                 None => {
                     eprintln!("harness error: the trace was recorded by the '{}' build, which is not available (run through ./check --replay)", b);
@@ -580,6 +577,8 @@ struct Child {
     last_progress: (u64, u64),
     last_change: Instant,
     done: bool,
+    /// binary of the user-like build variant, when this worker runs it
+    alt: Option<String>,
 }
 
 fn self_exe() -> PathBuf {
@@ -659,11 +658,12 @@ pub fn check_main(prop: &str, tier: &str) -> i32 {
         if alt.is_some() {
             alt_workers += 1;
         }
+        let alt_of_worker = alt.clone();
         let proc = capped_bin(alt.as_deref(), &["worker", prop, tier, &verif_seed.to_string(), &from.to_string(), &to.to_string(), prefix.to_str().unwrap()])
             .stdout(std::process::Stdio::null())
             .spawn();
         match proc {
-            Ok(p) => children.push(Child { proc: p, prefix, from, to, last_progress: (u64::MAX - 1, 0), last_change: Instant::now(), done: false }),
+            Ok(p) => children.push(Child { proc: p, prefix, from, to, last_progress: (u64::MAX - 1, 0), last_change: Instant::now(), done: false, alt: alt_of_worker }),
             Err(e) => {
                 eprintln!("harness error: cannot spawn worker: {}", e);
                 return 2;
@@ -672,7 +672,7 @@ pub fn check_main(prop: &str, tier: &str) -> i32 {
     }
     // supervise
     let hang_limit = Duration::from_secs(std::env::var("LRUSIM_HANG_SECS").ok().and_then(|s| s.parse().ok()).unwrap_or(30));
-    let mut dead: Vec<(u64, &'static str)> = Vec::new(); // (run index, how)
+    let mut dead: Vec<(u64, &'static str, Option<String>)> = Vec::new(); // (run index, how, build variant binary)
     let mut harness_failed = false;
     loop {
         let mut running = 0;
@@ -696,7 +696,7 @@ pub fn check_main(prop: &str, tier: &str) -> i32 {
                             eprintln!("harness error: worker for runs {}..{} exited with {} at run index {} (LRUSIM_VERBOSE_PANICS=1 shows the panic)", c.from, c.to, status, idx);
                             harness_failed = true;
                         }
-                        dead.push((idx, "crashed"));
+                        dead.push((idx, "crashed", c.alt.clone()));
                         eprintln!("worker for runs {}..{} died ({}) at run index {}", c.from, c.to, status, idx);
                     }
                 }
@@ -706,7 +706,7 @@ pub fn check_main(prop: &str, tier: &str) -> i32 {
                         let _ = c.proc.kill();
                         let _ = c.proc.wait();
                         c.done = true;
-                        dead.push((idx, "hung"));
+                        dead.push((idx, "hung", c.alt.clone()));
                         eprintln!("worker for runs {}..{} made no progress for {:?} at run index {}: killed", c.from, c.to, hang_limit, idx);
                     } else {
                         running += 1;
@@ -802,14 +802,15 @@ pub fn check_main(prop: &str, tier: &str) -> i32 {
         println!("note: {} workers died or hung; the first two are investigated, the rest are counted as cut short", dead.len());
         cut_short += (dead.len() - 2) as u64;
     }
-    for (idx, how) in dead.iter().take(2) {
+    for (idx, how, alt) in dead.iter().take(2) {
         if *idx >= u64::MAX - 1 {
             eprintln!("harness error: a worker died outside any run");
             return 2;
         }
         let prefix = tmp.join(format!("solo-{}-{}-{}", pid, prop, idx));
         let wa = replay_dir().join(format!("{}-{}-{}-{}.json", prop, verif_seed, idx, how));
-        let (code, _) = run_child(&[
+        // in the build variant of the worker that died (a hang of the user-like build need not exist in the checked one)
+        let (code, _) = run_child_bin(alt.as_deref(), &[
             "worker", prop, tier, &verif_seed.to_string(), &idx.to_string(), &(idx + 1).to_string(), prefix.to_str().unwrap(), "--no-min", "--wa", wa.to_str().unwrap(),
         ], hang_limit);
         let solo: Option<WorkerResult> = std::fs::read_to_string(prefix.with_extension("result")).ok().and_then(|s| serde_json::from_str(&s).ok());
@@ -1088,12 +1089,16 @@ pub enum ChildEnd {
 }
 
 pub fn run_child(args: &[&str], limit: Duration) -> (ChildEnd, String) {
+    run_child_bin(None, args, limit)
+}
+
+pub fn run_child_bin(bin: Option<&str>, args: &[&str], limit: Duration) -> (ChildEnd, String) {
     let tmp = tmp_dir().join(format!("child-{}-{}.out", std::process::id(), args.iter().map(|a| a.len()).sum::<usize>()));
     let f = match std::fs::File::create(&tmp) {
         Ok(f) => f,
         Err(_) => return (ChildEnd::SpawnFailed, String::new()),
     };
-    let mut p = match capped_self(args).stdout(f).spawn() {
+    let mut p = match capped_bin(bin, args).stdout(f).spawn() {
         Ok(p) => p,
         Err(_) => return (ChildEnd::SpawnFailed, String::new()),
     };
